@@ -92,6 +92,13 @@ def trees(tier):
             yield mk("TX", "ST", "0", "return", [mk(kind, eff, v, oc), mk("CALL", "STL", "0", "return")], post=post)
             yield mk("TX", "S", "0", "return", [mk("CALL", "S", "0", "return", [mk(kind, eff, "fwd" if v == "x" else v, oc)], post=post)])
             yield mk("TX", "S", "0", "return", [mk("DELEGATECALL", "S", "0", "return", [mk(kind, eff, "0", oc)], post=post)], post="T")
+    # creations at the same address twice (same CREATE2 salt and init code; the init code reverts iff it receives no value): a failed
+    # creation must leave no account behind, a successful one makes the second collide
+    for k in ("CREATE2", "CREATE"):
+        for v1, v2 in (("0", "k1"), ("k1", "0"), ("k1", "k1"), ("0", "0"), ("x", "k1"), ("x", "x")):
+            for eff in ("", "STL"):
+                yield mk("TX", "S", "0", "return", [mk(k, eff, v1, "valmix"), mk(k, eff, v2, "valmix", twin=True)])
+                yield mk("TX", "S", "0", "return", [mk("CALL", "S", "x", "return", [mk(k, eff, "fwd" if v1 == "x" else v1, "valmix"), mk(k, eff, "fwd" if v2 == "x" else v2, "valmix", twin=True)])])
     # value-bearing calls of a frame to its own address
     for v, post in itertools.product(("x", "k1", "0"), ("", "S")):
         yield mk("TX", "S", "0", "return", [mk("SELFCALL", "", v, "stop")], post=post)
@@ -182,7 +189,10 @@ def count_nodes(t):
 
 
 def strip(t):
-    return {"kind": t["kind"], "effects": t["effects"], "value": t["value"], "outcome": t["outcome"], "post": t.get("post", ""), "children": [strip(c) for c in t["children"]]}
+    d = {"kind": t["kind"], "effects": t["effects"], "value": t["value"], "outcome": t["outcome"], "post": t.get("post", ""), "children": [strip(c) for c in t["children"]]}
+    if t.get("twin"):
+        d["twin"] = True
+    return d
 
 
 NSHARDS = 64
